@@ -92,7 +92,7 @@ class _Case:
         if e != 'mixed':
             return e
         self._nobj = getattr(self, '_nobj', 0) + 1
-        return ('real', 'complex', 'int', 'complex', 'real')[(self.c['seed'] + self._nobj) % 5]
+        return ('real', 'complex', 'int', 'sites', 'complex', 'real', 'sites')[(self.c['seed'] + self._nobj) % 7]
 
     def mps(self, q0, q1, order=None):
         rng = self.rng
